@@ -48,7 +48,10 @@ func (w *cworld) add(e ev) int {
 func (w *cworld) seq() int { return w.n }
 
 //go:norace
-func (w *cworld) resumed(t int) { w.resume[t] = clock.Now() }
+func (w *cworld) resumed(t int) {
+	w.resume[t] = clock.Now()
+	w.add(ev{kind: 3, thread: t, clock: clock.Now()})
+}
 
 //go:norace
 func (w *cworld) arrive(t int) { w.arrSeq[t] = w.n; w.arrClock[t] = clock.Now() }
@@ -184,7 +187,7 @@ func tripRace(prop string, nreq, bound int) *sched.Scenario {
 		inst.Outcome = func() string {
 			var sb strings.Builder
 			for i := 0; i < w.n; i++ {
-				if w.evs[i].kind != 2 {
+				if w.evs[i].kind < 2 {
 					fmt.Fprintf(&sb, "%d%c", w.evs[i].thread, "pr"[w.evs[i].kind])
 				}
 			}
@@ -278,7 +281,7 @@ func retripRace(bound int) *sched.Scenario {
 		inst.Outcome = func() string {
 			var sb strings.Builder
 			for i := 0; i < w.n; i++ {
-				if w.evs[i].kind != 2 {
+				if w.evs[i].kind < 2 {
 					fmt.Fprintf(&sb, "%d%c", w.evs[i].thread, "pr"[w.evs[i].kind])
 				} else {
 					sb.WriteString(w.evs[i].state[:1])
@@ -335,6 +338,9 @@ func recoveryRace(nreq, bound int, final int) *sched.Scenario {
 					}
 					continue
 				}
+				if e.kind == 3 {
+					continue
+				}
 				if state != "recovering" {
 					break // a re-trip or the end of recovery: the ramp no longer applies
 				}
@@ -361,7 +367,7 @@ func recoveryRace(nreq, bound int, final int) *sched.Scenario {
 		inst.Outcome = func() string {
 			var sb strings.Builder
 			for i := 0; i < w.n; i++ {
-				if w.evs[i].kind != 2 {
+				if w.evs[i].kind < 2 {
 					fmt.Fprintf(&sb, "%c", "pr"[w.evs[i].kind])
 				}
 			}
@@ -370,6 +376,109 @@ func recoveryRace(nreq, bound int, final int) *sched.Scenario {
 		return inst
 	}
 	return sc
+}
+
+// mixedRace (C18): one failing and two healthy responses complete around a clock step.
+// If the breaker is observed tripped, the condition must be true over SOME admissible set
+// of recorded responses: at least those whose requests had returned (observing a state other
+// than tripped) before, plus the tripping one; at most those whose handlers had finished.
+func mixedRace(bound int) *sched.Scenario {
+	sc := &sched.Scenario{Name: fmt.Sprintf("breaker-mixed-race/bound=%d", bound), Bound: bound}
+	codes := []int{502, 200, 200}
+	sc.New = func() *sched.Instance {
+		clock.VerifInstall(base, nil)
+		w := &cworld{}
+		h := http.HandlerFunc(func(rw http.ResponseWriter, r *http.Request) {
+			t := int(r.Header.Get("T")[0] - '0')
+			w.add(ev{kind: 0, thread: t, clock: clock.Now()})
+			vrt.Yield()
+			w.resumed(t)
+			rw.WriteHeader(codes[t])
+		})
+		cb, err := cbreaker.New(h, "NetworkErrorRatio() > 0.5", cbreaker.FallbackDuration(cFallback), cbreaker.RecoveryDuration(cRecovery),
+			cbreaker.CheckPeriod(100*time.Millisecond), cbreaker.OnTripped(eff{w, true}))
+		if err != nil {
+			panic(err)
+		}
+		w.cb = cb
+		inst := &sched.Instance{Names: []string{"F-502", "H1-200", "H2-200", "clock"}}
+		inst.Bodies = []func(){
+			func() { w.request(0) }, func() { w.request(1) }, func() { w.request(2) },
+			func() {
+				clock.VerifAdvance(150 * time.Millisecond)
+				vrt.Yield()
+				clock.VerifAdvance(150 * time.Millisecond)
+			},
+		}
+		inst.Check = func(x *vrt.Exec) []vrt.Failure {
+			k := -1
+			for i := 0; i < w.n; i++ {
+				if w.evs[i].kind == 2 && w.evs[i].state == "tripped" {
+					k = i
+					break
+				}
+			}
+			if k < 0 {
+				return nil
+			}
+			must, may := map[int]bool{w.evs[k].thread: true}, map[int]bool{}
+			for i := 0; i < k; i++ {
+				switch w.evs[i].kind {
+				case 2:
+					must[w.evs[i].thread] = true
+				case 3:
+					may[w.evs[i].thread] = true
+				}
+			}
+			var opt []int
+			for t := range may {
+				if !must[t] {
+					opt = append(opt, t)
+				}
+			}
+			for mask := 0; mask < 1<<len(opt); mask++ {
+				errs, total := 0, 0
+				count := func(t int) {
+					total++
+					if codes[t] == 502 {
+						errs++
+					}
+				}
+				for t := range must {
+					count(t)
+				}
+				for i, t := range opt {
+					if mask&(1<<i) != 0 {
+						count(t)
+					}
+				}
+				if total > 0 && float64(errs)/float64(total) > 0.5 {
+					return nil // an admissible reading makes the condition true
+				}
+			}
+			return []vrt.Failure{{Key: "C18:tripped-with-condition-false:concurrent",
+				Detail: fmt.Sprintf("the breaker tripped although NetworkErrorRatio() > 0.5 is false over every admissible set of recorded responses (certainly recorded: threads %v, possibly: %v; codes %v)", keys(must), opt, codes)}}
+		}
+		inst.Outcome = func() string {
+			var sb strings.Builder
+			for i := 0; i < w.n; i++ {
+				if w.evs[i].kind == 2 {
+					fmt.Fprintf(&sb, "%d%s", w.evs[i].thread, w.evs[i].state[:1])
+				}
+			}
+			return sb.String()
+		}
+		return inst
+	}
+	return sc
+}
+
+func keys(m map[int]bool) []int {
+	var out []int
+	for k := range m {
+		out = append(out, k)
+	}
+	return out
 }
 
 func Scenarios(prop, tier string) []*sched.Scenario {
@@ -382,6 +491,8 @@ func Scenarios(prop, tier string) []*sched.Scenario {
 		return []*sched.Scenario{recoveryRace(3, b, 200), recoveryRace(2, b+1, 200), recoveryRace(3, b, 502)}
 	case "C05":
 		return []*sched.Scenario{tripRace(prop, 3, b), tripRace(prop, 2, b+1), retripRace(b)}
+	case "C18":
+		return []*sched.Scenario{tripRace(prop, 3, b), tripRace(prop, 2, b+1), mixedRace(b + 1)}
 	default:
 		return []*sched.Scenario{tripRace(prop, 3, b), tripRace(prop, 2, b+1)}
 	}
